@@ -29,3 +29,212 @@ c.setup = setup_anext
 c.ensures(lambda S: z3.And(S.it.unbox(S.result).t == S.vars["data"].t, z3.Length(S.vars["data"].t) > 0), "yields-every-non-empty-block-unchanged")
 c.raises_("StopAsyncIteration", lambda S: z3.Length(S.vars["data"].t) == 0, "stops-only-on-an-empty-read")
 c.raises_("CancelledError")
+
+
+# ------------------------------------------------------------------------------------ client side
+from pyvc import strmodel  # noqa: E402
+from pyvc.core import as_int  # noqa: E402
+from pyvc.interp import LazyOpt  # noqa: E402
+from pyvc.session import Reader, Writer  # noqa: E402
+from pyvc.unit import LoopSpec  # noqa: E402
+
+CLIENT = "aioftp.client"
+T1 = {"props": ["C01"]}
+
+# summaries: Client.command records what is sent; get_passive_connection hands out a fresh socket pair
+_cmd = contract(CLIENT, "BaseClient.command", props=[], name="BaseClient.command#record")
+_cmd.self_check = False
+_cmd.may_suspend = True
+
+
+def _cmd_result(S):
+    it = S.it
+    it.ctx.event("command", S.vars["command"], S.vars["expected_codes"], S.vars["wait_codes"])
+    return (fresh("str", "code"), ["info"])
+
+
+_cmd.result_shape = _cmd_result
+_cmd.raises_("StatusCodeError")
+
+_gpc = contract(CLIENT, "Client.get_passive_connection", props=[], name="Client.get_passive_connection#record")
+_gpc.self_check = False
+_gpc.may_suspend = True
+
+
+def _gpc_result(S):
+    it = S.it
+    r, w = Reader("data"), Writer("data")
+    it.ctx.event("passive", S.vars["conn_type"], r, w)
+    it.ctx.ghost["data_pair"] = (r, w)
+    return (r, w)
+
+
+_gpc.result_shape = _gpc_result
+_gpc.raises_("StatusCodeError")
+_gpc.raises_("OSError")
+
+
+def mk_client(u):
+    it = u.it
+    cl = Obj(u.cls(CLIENT, "Client"), tag="client")
+    cl.fields["socket_timeout"] = LazyOpt(it, "real", "socket_timeout", lambda v: v.t > 0)
+    cl.fields["throttle"] = Obj(u.cls(COMMON, "StreamThrottle"), tag="client_throttle")
+    cl.fields["encoding"] = "utf-8"
+    return cl
+
+
+def setup_get_stream(u):
+    it = u.it
+    cl = mk_client(u)
+    verb_cmd = fresh("str", "verb_command")
+    offset = fresh("int", "offset")
+    u.assume(offset.t >= 0)
+    # the coroutine wrapped by @async_enterable: awaiting the enterable runs it
+    enterable = it.call(it.getattr_(cl, "get_stream"), [verb_cmd, "1xx"], {"offset": offset})
+    run = Builtin("await get_stream(...)", lambda i, a, k: i.call(i.getattr_(enterable, "__await__"), [], {}))
+    return run, [], {}, {"self": cl, "verb": verb_cmd, "offset": offset}
+
+
+c = contract(CLIENT, "Client.get_stream", props=["C01"])
+c.setup = setup_get_stream
+c.uses = [(CLIENT, "BaseClient.command#record"), (CLIENT, "Client.get_passive_connection#record")]
+c.raises_("StatusCodeError")
+c.raises_("OSError")
+c.raises_("CancelledError")
+
+
+def get_stream_post(S):
+    """data connection first, then REST <offset> (iff offset != 0, expecting 350), then the transfer verb; the stream
+    wraps the passive socket pair, shares the client's throttle and uses socket_timeout"""
+    it = S.it
+    ev = [e for e in it.ctx.events if e[0] in ("command", "passive")]
+    off = S.vars["offset"].t
+    if not ev or ev[0][0] != "passive":
+        return False
+    cmds = [e for e in ev[1:]]
+    if any(e[0] != "command" for e in cmds):
+        return False
+    st = S.result
+    r, w = it.ctx.ghost["data_pair"]
+    wiring = st.fields["reader"] is r and st.fields["writer"] is w and st.fields["throttles"].get("_") is S.vars["self"].fields["throttle"] and st.fields["client"] is S.vars["self"]
+    verb_last = len(cmds) >= 1 and cmds[-1][1] is S.vars["verb"]
+    if len(cmds) == 1:
+        return z3.And(off == 0, z3.BoolVal(bool(wiring and verb_last)))
+    if len(cmds) == 2:
+        rest_cmd = it.unbox(cmds[0][1])
+        want = z3.Concat(z3.StringVal("REST "), strmodel.to_str(it, S.vars["offset"]).t)
+        return z3.And(off != 0, rest_cmd.t == want, z3.BoolVal(cmds[0][2] == "350"), z3.BoolVal(bool(wiring and verb_last)))
+    return False
+
+
+c.ensures(get_stream_post, "passive-then-REST-iff-offset-then-verb-and-the-stream-wraps-that-socket")
+
+
+# ---- DataConnectionThrottleStreamIO.__aexit__ / finish
+def setup_aexit(u):
+    it = u.it
+    cl = mk_client(u)
+    r, w = Reader("data"), Writer("data")
+    st = it.call(u.cls(CLIENT, "DataConnectionThrottleStreamIO"), [cl, r, w], {"throttles": {}, "timeout": None})
+    with_exc = u.choose(2, "body-raised") == 1
+    exc = it.make_exc("ValueError") if with_exc else None
+    f = it.getattr_(st, "__aexit__")
+    return f, [exc.cls if exc else None, exc, None], {}, {"self": st, "writer": w, "with_exc": with_exc}
+
+
+c = contract(CLIENT, "DataConnectionThrottleStreamIO.__aexit__", props=["C01"])
+c.setup = setup_aexit
+c.uses = [(CLIENT, "BaseClient.command#record")]
+c.raises_("StatusCodeError")
+c.raises_("CancelledError")
+
+
+def aexit_post(S):
+    it = S.it
+    ev = it.ctx.events
+    closes = [i for i, e in enumerate(ev) if e[0] == "close"]
+    cmds = [(i, e) for i, e in enumerate(ev) if e[0] == "command"]
+    if S.vars["with_exc"]:
+        return len(closes) == 1 and not cmds
+    ok = len(closes) == 1 and len(cmds) == 1 and closes[0] < cmds[0][0] and cmds[0][1][1] is None and cmds[0][1][2] == "2xx" and cmds[0][1][3] == "1xx"
+    return bool(ok)
+
+
+c.ensures(aexit_post, "closes-the-data-stream-then-waits-for-the-2xx-completion-reply")
+c.raises_("StatusCodeError", lambda S: S.vars["writer"].closed, "data-stream-closed-even-when-the-completion-reply-is-bad")
+
+
+# ---- the copy loop of Client.upload (file branch), extracted from the real function
+import ast  # noqa: E402
+
+from pyvc.values import Env  # noqa: E402
+
+
+def setup_upload_copy(u):
+    it = u.it
+    mod = it.modules[CLIENT]
+    fn = [n for n in ast.walk(mod.tree) if isinstance(n, ast.AsyncFunctionDef) and n.name == "upload"][0]
+    loops = [n for n in ast.walk(fn) if isinstance(n, ast.AsyncFor)]
+    copy = [n for n in loops if isinstance(n.iter, ast.Call) and isinstance(n.iter.func, ast.Attribute) and n.iter.func.attr == "iter_by_block"]
+    if len(copy) != 1:
+        raise __import__("pyvc.core", fromlist=["Unsupported"]).Unsupported("Client.upload: copy loop not found")
+    loop = copy[0]
+    content = fresh("bytes", "file_content")
+    fr = Reader("file", incoming=content.t)
+
+    class FileIn:
+        pass
+
+    from pyvc.values import Model
+
+    class FileModel(Model):
+        model_name = "file_in"
+
+        def getattr(self, i, name):
+            if name == "iter_by_block":
+                def ibb(i2, a, k):
+                    n = a[0]
+                    itr_cls = i2.modules[COMMON].attrs["AsyncStreamIterator"]
+                    return i2.call(itr_cls, [Builtin("read", lambda i3, a3, k3: i3.call(i3.getattr_(fr, "read"), [n], {}))], {})
+                return Builtin("iter_by_block", ibb)
+            raise __import__("pyvc.core", fromlist=["Unsupported"]).Unsupported("file." + name)
+
+    w = Writer("data")
+    stream = Obj(u.cls(COMMON, "StreamIO"), tag="stream")
+    stream.fields.update(reader=Reader("data"), writer=w, read_timeout=None, write_timeout=None)
+    bs = fresh("int", "block_size")
+    u.assume(bs.t >= 1)
+    env = Env(mod.env)
+    env.vars.update(file_in=FileModel(), stream=stream, block_size=bs)
+
+    def run(i, a, k):
+        def body():
+            i.exec(loop, env, "Client.upload.<locals>")
+        return Coro(body, "upload-copy-loop")
+
+    u.it.hooks.setdefault("loops", {})
+    return Builtin("Client.upload/copy-loop", run), [], {}, {"content": content, "file_reader": fr, "writer": w}
+
+
+c = contract(CLIENT, "Client.upload", props=["C01", "C09"], name="Client.upload/copy-loop")
+c.setup = setup_upload_copy
+c.raises_("OSError")
+c.raises_("CancelledError")
+c.assumptions.append("block contract: the `async for block in file_in.iter_by_block(block_size): await stream.write(block)` loop is extracted from the AST of the real Client.upload; the local file yields some non-empty prefix of what remains, of length <= block_size")
+
+
+def upload_loop_inv(S):
+    us = S.it.ctx.unit_state
+    fr, w = us.vars["file_reader"], us.vars["writer"]
+    return z3.And(w.written == fr.consumed, z3.Concat(fr.consumed, fr.incoming) == us.vars["content"].t)
+
+
+def upload_loop_havoc(it, env):
+    us = it.ctx.unit_state
+    fr, w = us.vars["file_reader"], us.vars["writer"]
+    fr.incoming, fr.consumed, w.written = fresh("bytes", "inc").t, fresh("bytes", "cons").t, fresh("bytes", "wr").t
+
+
+# the block has no enclosing function frame: its loop contract is looked up through the unit (ordinal -1)
+c.env_hooks = {"block_loop": LoopSpec(invariants=[("sent-so-far-is-exactly-what-was-read", upload_loop_inv)], havoc=upload_loop_havoc)}
+c.ensures(lambda S: S.vars["writer"].written == S.vars["content"].t, "every-byte-of-the-file-is-sent-once-in-order")
